@@ -477,7 +477,9 @@ class ExprMixin:
 
     def str_format(self, a, b, st, n):
         if not z3.is_string_value(a.z):
-            raise Unsupported('% formatting with symbolic format')
+            # a format string computed at run time: the result is some string (nothing is known about it)
+            self.eng.notes.append('%% formatting with a computed format string at line %s: result abstracted to an arbitrary string' % getattr(n, 'lineno', '?'))
+            return SV(T.Str, z3.String(fresh_name('fmtdyn')))
         fmt = a.z.as_string()
         args = self.tuple_items(b) if isinstance(b.t, T.Tuple) else [b]
         parts, i, ai = [], 0, 0
